@@ -52,10 +52,10 @@ func (r *rng) bytes(n int) []byte {
 // ---- output ----
 type out struct {
 	cases, impl, meta *bufio.Writer
-	n           int
-	stats       map[string]int
-	samples     []string
-	prefix      string
+	n                 int
+	stats             map[string]int
+	samples           []string
+	prefix            string
 }
 
 func hx(b []byte) string {
